@@ -318,11 +318,11 @@ def run_check(ctx, *, design, edge_cfgs, negs, invariants, corpus, max_paths_qui
     nt = sum(1 for k, s in enumerate(scheds) if (nontrivial(s, runs[k]) if nontrivial else True))
     ctx.cov["evaluations"] += len(scheds)
     ctx.cov["distinct_nontrivial"] += nt
-    ctx.cov["rule"] = rule
-    ctx.cov["model_edges"] = total_edges
-    ctx.cov["model_edges_replayed_on_impl"] = covered_edges
+    ctx.cov["rule"] = (ctx.cov.get("rule") + " || " if ctx.cov.get("rule") else "") + rule
+    ctx.cov["model_edges"] = ctx.cov.get("model_edges", 0) + total_edges
+    ctx.cov["model_edges_replayed_on_impl"] = ctx.cov.get("model_edges_replayed_on_impl", 0) + covered_edges
     ctx.cov["exhaustive"] = True
-    ctx.cov["schedule_origins"] = {}
+    ctx.cov.setdefault("schedule_origins", {})
     for s in scheds:
         o = s.get("origin", "?")
         ctx.cov["schedule_origins"][o] = ctx.cov["schedule_origins"].get(o, 0) + 1
